@@ -373,6 +373,22 @@ def run(ctx):
         nl += 1
         jobs.append((n[0], 'deferred-ladder', arc.archive(ladder()), rnd.choice(['xf', 'xq', 'xfw=sub', 'e']), None, base, exe, so, []))
     ctx.cov['deferred_ladder_archives'] = nl
+    # two directed shapes in which one deferred link is created THROUGH another one (a harmless alias link to the directory
+    # makes the stored path of the inner link shorter than that of the outer one, so "longest path first" creates the outer one
+    # first): (1) the outer link's placeholder was replaced by a harmless link before the inner link was archived; (2) the inner
+    # link was archived first and the outer link then took the place of a harmless link.  See DESIGN section 6 (F9).
+    for vi, variant in enumerate(('replaced-placeholder', 'alias-order')):
+        for cmd in ('xf', 'xq'):
+            n[0] += 1
+            cb = canary_for(n[0]).encode()
+            D = b'directory-with-a-long-name'
+            if variant == 'replaced-placeholder':
+                ms = [arc.dir_member(D + b'/', level=2, perms=0o40755), arc.dir_member(D + b'/sub/', level=2, perms=0o40755), arc.symlink_member(b'a', D, level=2),
+                      arc.symlink_member(D + b'/s', cb, level=2), arc.symlink_member(D + b'/s', b'sub', level=2), arc.symlink_member(b'a/s/precious.txt', b'/x', level=2)]
+            else:
+                ms = [arc.dir_member(D + b'/', level=2, perms=0o40755), arc.dir_member(D + b'/sub/', level=2, perms=0o40755), arc.symlink_member(D + b'/s', b'sub', level=2),
+                      arc.symlink_member(b'a', D, level=2), arc.symlink_member(b'a/s/precious.txt', b'/x', level=2), arc.symlink_member(D + b'/s', cb, level=2)]
+            jobs.append((n[0], 'deferred-link-created-through-another:' + variant, arc.archive(ms), cmd, None, base, exe, so, []))
     # pre-existing symlinks at final components
     pres = [[('a', 'CANARY/precious.txt')], [('a', 'CANARY')], [('a', 'dangling-target')], [('d/f', 'CANARY/precious.txt')],
             [('d/f', '../../nowhere')], [('x', 'CANARY/sub/ro.txt')]]
